@@ -10,6 +10,8 @@ func Check(prop, tier string) error {
 	switch prop {
 	case "C03", "C04", "C05", "C06", "C07", "C08":
 		return MockCheck(prop, tier)
+	case "C14":
+		return GenCheck(prop, tier)
 	case "C15", "C17", "C18":
 		return CliCheck(prop, tier)
 	}
@@ -31,6 +33,8 @@ func Replay(path string) error {
 		return MockReplay(path)
 	case "clisim":
 		return CliReplayFile(path)
+	case "gensim":
+		return GenReplayFile(path)
 	}
 	return Fatal2("unknown engine %q in %s", h.Engine, path)
 }
